@@ -11,6 +11,7 @@ import subprocess
 import sys
 
 scratch, exe, seed, n = sys.argv[1], sys.argv[2], int(sys.argv[3]), int(sys.argv[4])
+mode = sys.argv[5] if len(sys.argv) > 5 else "group"
 
 M = (1 << 64) - 1
 
@@ -46,6 +47,59 @@ def sh(*a):
     return subprocess.run(a, stdout=subprocess.PIPE, stderr=subprocess.PIPE)
 
 
+def inventory(mnts):
+    inv = {}
+    for m in mnts:
+        for d, _, fs in os.walk(m):
+            for f in fs:
+                p = os.path.join(d, f)
+                if os.path.islink(p):
+                    inv[p] = ["l", os.readlink(p)]
+                else:
+                    inv[p] = ["f", hashlib.sha256(open(p, "rb").read()).hexdigest()]
+    return inv
+
+
+def stale_scenario(si, mnts, files, cache_home):
+    """C04 across file systems: `group` over the mounts, then ONE member of a group whose members share an inode NUMBER (on
+    different file systems) is rewritten in place by an ordinary write (same length, new mtime), then a dedupe command."""
+    import time
+    env = dict(os.environ, NO_COLOR="1", XDG_CACHE_HOME=cache_home, HOME=cache_home, FCLONES_VERIF_DISK_KIND="ssd")
+    p = subprocess.run([exe, "group"] + mnts + ["--rf-over", "1"], env=env, stdout=subprocess.PIPE, stderr=subprocess.PIPE, timeout=120)
+    if p.returncode != 0:
+        print(json.dumps({"scenario": si, "rc": p.returncode, "stderr": p.stderr.decode("utf-8", "replace")[-600:], "stage": "group"}))
+        return
+    report = p.stdout
+    jp = subprocess.run([exe, "group"] + mnts + ["--rf-over", "1", "-f", "json"], env=env, stdout=subprocess.PIPE, stderr=subprocess.PIPE, timeout=120)
+    groups = [g["files"] for g in json.loads(jp.stdout.decode()).get("groups", [])]
+    byp = {f["path"]: f for f in files}
+    cands = []
+    for g in groups:
+        for i, a in enumerate(g):
+            if any(b != a and byp[b]["ino"] == byp[a]["ino"] and byp[b]["dev"] != byp[a]["dev"] for b in g):
+                cands.append((g, i))
+    if not cands:
+        print(json.dumps({"scenario": si, "skipped": "no group with colliding inode numbers"}))
+        return
+    g, i = cands[rng.below(len(cands))]
+    victim = g[i]
+    time.sleep(0.05)
+    old = open(victim, "rb").read()
+    new = bytes([old[0] ^ 0x55]) + old[1:] if old else b""
+    with open(victim, "r+b") as f:
+        f.write(new)
+    t = time.time_ns() + 2 * 10**9
+    os.utime(victim, ns=(t, t))
+    op = rng.choice([["remove"], ["link", "--soft"], ["move", os.path.join(mnts[0], "moved")], ["remove", "--priority", "top"],
+                     ["remove", "--priority", "newest"]])
+    inv0 = inventory(mnts)
+    q = subprocess.run([exe] + op, env=env, input=report, stdout=subprocess.PIPE, stderr=subprocess.PIPE, timeout=120)
+    inv1 = inventory(mnts)
+    print(json.dumps({"scenario": si, "mounts": mnts, "op": op, "victim": victim, "victim_index": i, "group": g,
+                      "files": files, "rc": q.returncode, "stderr": q.stderr.decode("utf-8", "replace")[-600:],
+                      "before": inv0, "after": inv1}))
+
+
 rng = Rng(seed)
 for si in range(n):
     nm = 2 + rng.below(2)
@@ -63,6 +117,8 @@ for si in range(n):
     # slot j is created on every mount before slot j+1, so the j-th file has the same inode number everywhere
     for j in range(nslots):
         shared = rng.below(3) == 0           # the same content on every mount (true duplicates across file systems)
+        if mode == "stale" and j == 1:
+            shared = True
         for k, m in enumerate(mnts):
             p = os.path.join(m, "f%d" % j)
             tag = (si * 1000 + j * 10) if shared else (si * 1000 + j * 10 + k + 1)
@@ -85,6 +141,11 @@ for si in range(n):
             files.append({"path": p, "dev": st.st_dev, "ino": st.st_ino, "len": st.st_size,
                           "sha": hashlib.sha256(open(p, "rb").read()).hexdigest()})
     cache_home = os.path.join(scratch, "cache%d" % si)
+    if mode == "stale":
+        stale_scenario(si, mnts, files, cache_home)
+        for m in mnts:
+            sh("umount", m)
+        continue
     for run in range(2):
         opts = ["--rf-over", str(rng.below(2))]
         if rng.below(3) == 0:
